@@ -569,6 +569,66 @@ func vsWorldPart(plus bool, part string) *World {
 	return w
 }
 
+// mergeableCrossWorld crosses the annotations a minion INHERITS from its master (minionInheritanceList) with where
+// the enabling annotation sits: the options of a feature on one Ingress, the annotation that switches the feature on
+// (nginx.org/limit-req-rate) on the other -- each Ingress alone is harmless, the merged configuration uses both.
+//   masterRate = true : the master sets the rate (and every inheritable annotation); minion "opts" sets only options,
+//                       minion "bare" sets nothing and inherits everything
+//   masterRate = false: the master sets only options; minion "rate" sets the rate and inherits the options
+func mergeableCrossWorld(plus bool, masterRate bool) *World {
+	w := &World{Plus: plus, Secondary: true}
+	clusterState(w)
+	prefix := networking.PathTypePrefix
+	opts := map[string]string{
+		"nginx.org/limit-req-key": "${request_uri}", "nginx.org/limit-req-zone-size": "5m", "nginx.org/limit-req-delay": "2", "nginx.org/limit-req-burst": "7",
+		"nginx.org/limit-req-dry-run": "true", "nginx.org/limit-req-log-level": "warn", "nginx.org/limit-req-reject-code": "503", "nginx.org/limit-req-scale": "false",
+	}
+	inheritable := map[string]string{
+		"nginx.org/proxy-connect-timeout": "11s", "nginx.org/proxy-read-timeout": "12s", "nginx.org/proxy-send-timeout": "13s", "nginx.org/client-max-body-size": "3m",
+		"nginx.org/proxy-buffering": "true", "nginx.org/proxy-buffers": "2 4k", "nginx.org/proxy-buffer-size": "4k", "nginx.org/proxy-max-temp-file-size": "64m",
+		"nginx.org/upstream-zone-size": "256k", "nginx.org/lb-method": "least_conn", "nginx.org/keepalive": "8", "nginx.org/max-fails": "2", "nginx.org/max-conns": "9",
+		"nginx.org/fail-timeout": "9s",
+	}
+	mk := func(name, kind string, ann map[string]string, paths ...string) *networking.Ingress {
+		ing := &networking.Ingress{ObjectMeta: meta(name)}
+		ing.Annotations = map[string]string{"nginx.org/mergeable-ingress-type": kind}
+		for k, v := range ann {
+			ing.Annotations[k] = v
+		}
+		rule := networking.IngressRule{Host: "mx.example.com"}
+		if len(paths) > 0 {
+			rule.HTTP = &networking.HTTPIngressRuleValue{}
+			for i, p := range paths {
+				rule.HTTP.Paths = append(rule.HTTP.Paths, networking.HTTPIngressPath{Path: p, PathType: &prefix, Backend: backend([]string{"svc1", "svc2", "svc3"}[i%3], 80, "")})
+			}
+		}
+		ing.Spec = networking.IngressSpec{IngressClassName: ptr("nginx"), Rules: []networking.IngressRule{rule}}
+		return ing
+	}
+	merge := func(ms ...map[string]string) map[string]string {
+		out := map[string]string{}
+		for _, m := range ms {
+			for k, v := range m {
+				out[k] = v
+			}
+		}
+		return out
+	}
+	rate := map[string]string{"nginx.org/limit-req-rate": "9r/s"}
+	if masterRate {
+		w.Objs = append(w.Objs,
+			Obj{Kind: "ing", Name: "mx-master", Val: mk("mx-master", "master", merge(rate, opts, inheritable))},
+			Obj{Kind: "ing", Name: "mx-opts", Val: mk("mx-opts", "minion", merge(opts, map[string]string{"nginx.org/limit-req-no-delay": "true"}), "/opts")},
+			Obj{Kind: "ing", Name: "mx-bare", Val: mk("mx-bare", "minion", nil, "/bare")})
+	} else {
+		w.Objs = append(w.Objs,
+			Obj{Kind: "ing", Name: "mx-master", Val: mk("mx-master", "master", merge(opts, inheritable))},
+			Obj{Kind: "ing", Name: "mx-rate", Val: mk("mx-rate", "minion", rate, "/rate")},
+			Obj{Kind: "ing", Name: "mx-own", Val: mk("mx-own", "minion", merge(rate, map[string]string{"nginx.org/limit-req-key": "${binary_remote_addr}", "nginx.org/lb-method": "ip_hash"}), "/own")})
+	}
+	return w
+}
+
 // Fixture is a named world builder.
 type Fixture struct {
 	Name  string
@@ -591,6 +651,8 @@ var fixtures = []Fixture{
 	{"ing-a-ci", func(p bool) *World { return ingWorld(p, "a", "case_insensitive") }},
 	{"ing-challenge", func(p bool) *World { return ingWorld(p, "challenge", "") }},
 	{"mergeable", mergeableWorld},
+	{"mergeable-x-master-rate", func(p bool) *World { return mergeableCrossWorld(p, true) }},
+	{"mergeable-x-minion-rate", func(p bool) *World { return mergeableCrossWorld(p, false) }},
 	{"vs-cross-prefix", func(p bool) *World { return vsCrossWorld(p, "prefix") }},
 	{"vs-cross-regex", func(p bool) *World { return vsCrossWorld(p, "regex") }},
 	{"vs-cross-iregex", func(p bool) *World { return vsCrossWorld(p, "iregex") }},
